@@ -248,7 +248,8 @@ theorem drain_metaS : ∀ (fuel : Nat) (r : Realm), (drain fuel r).metaS = r.met
 theorem stepOp_metaS (r : Realm) (op : Op) : (r.stepOp op).metaS = r.metaS := by
   cases op with
   | msg k m => exact recvMsg_metaS r k m
-  | drop k => rw [stepOp_drop]; split <;> rfl
+  | drop k => rw [stepOp_drop]; split <;> (try split) <;> rfl
+  | join k isLocal details roles cap => rw [stepOp_join]; split <;> rfl
   | _ => rfl
 
 theorem retryDue_metaS (r : Realm) (x : Retry) : (r.retryDue x).metaS = r.metaS := by
